@@ -257,6 +257,8 @@ enum OOp {
     Children(Vec<Step>),
     CloneRead(Vec<Step>),
     CloneKeep,
+    /// clone the `as_array()` / `as_object()` view found at a path, turn the clone into a value, read and drop it
+    CloneView(Vec<Step>),
     Debug,
     ToString,
     DropHandle,
@@ -364,7 +366,7 @@ fn owned_scenario() -> SimResult {
                 3 => OOp::Pointer(draw_path(&paths)),
                 4 => OOp::Children(draw_path(&paths)),
                 5 | 6 => OOp::CloneRead(draw_path(&paths)),
-                7 => OOp::CloneKeep,
+                7 => if draw(2) == 0 { OOp::CloneKeep } else { OOp::CloneView(draw_path(&paths)) },
                 8 => if draw(2) == 0 { OOp::Debug } else { OOp::ToString },
                 _ => OOp::DropHandle,
             })
@@ -396,6 +398,32 @@ fn owned_scenario() -> SimResult {
                                 .map_err(|e| Violation::new("mismatch/serialize-error", format!("{}: {}", what, e)))?;
                             oracle::check_serialized(&s, &model, &what)?;
                             libcall("drop clone", move || drop(c))
+                        })();
+                        collect(&errs, r)
+                    }
+                    OOp::CloneView(p) => {
+                        let r = (|| {
+                            let want = gen::at_path(&model, p);
+                            let c: Option<OwnedLazyValue> = libcall("view.clone()", || {
+                                let at = navigate(target, p)?;
+                                if let Some(a) = at.as_array() {
+                                    Some(OwnedLazyValue::from(a.clone()))
+                                } else {
+                                    at.as_object().map(|o| OwnedLazyValue::from(o.clone()))
+                                }
+                            })?;
+                            match (c, want) {
+                                (Some(c), Some(w)) if matches!(w, J::Arr(_) | J::Obj(_)) => {
+                                    trace::bump(C::lazy_clones);
+                                    let s = libcall("to_string(cloned view)", || sonic_rs::to_string(&c))?
+                                        .map_err(|e| Violation::new("mismatch/serialize-error", format!("{}: {}", what, e)))?;
+                                    oracle::check_serialized(&s, w, &what)?;
+                                    libcall("drop cloned view", move || drop(c))
+                                }
+                                (None, Some(w)) if matches!(w, J::Arr(_) | J::Obj(_)) => Err(Violation::new("mismatch/as_array", format!("{}: no container view at {} but the model has one", what, gen::path_str(p)))),
+                                (None, _) => Ok(()),
+                                (Some(_), _) => Err(Violation::new("mismatch/as_array", format!("{}: a container view at {} where the model has none", what, gen::path_str(p)))),
+                            }
                         })();
                         collect(&errs, r)
                     }
